@@ -265,11 +265,19 @@ def run(ctx, ck):
 
     f = m.func('mininec.Excitation.register')
     params = f.params
-    a_idx = assigns_to_attr(f, 'self.idx')
-    a_par = assigns_to_attr(f, 'self.parent')
-    ok = len(a_idx) == 1 and len(a_par) == 1 and len(params) >= 3 and \
-        isinstance(a_idx[0].value, ast.Name) and a_idx[0].value.id == params[2] and \
-        isinstance(a_par[0].value, ast.Name) and a_par[0].value.id == params[1]
+    stored = {}
+    for s_ in walk_no_nested(f.node):
+        if isinstance(s_, ast.Assign):
+            for t in s_.targets:
+                if isinstance(t, ast.Attribute):
+                    stored[dotted(t)] = s_.value
+                elif isinstance(t, (ast.Tuple, ast.List)) and isinstance(s_.value, (ast.Tuple, ast.List)) \
+                        and len(t.elts) == len(s_.value.elts):
+                    for te, ve in zip(t.elts, s_.value.elts):
+                        if isinstance(te, ast.Attribute):
+                            stored[dotted(te)] = ve
+    ok = len(params) >= 3 and norm(stored.get('self.idx', ast.Constant(value=None))) == params[2] and \
+        norm(stored.get('self.parent', ast.Constant(value=None))) == params[1]
     ck.ob('R-DEP.current-lookup', f.qual, ok, f.loc(), 'register(parent, pulse) stores both unchanged')
 
     # coefficient of one source must not depend on the other sources (weight re-initialised per source)
